@@ -86,6 +86,7 @@ func init() {
 			ruleSGReg(c)
 			ruleRegOverwrite(c)
 			ruleRegArg(c)
+			ruleRegEntry(c)
 			ruleDstFresh(c)
 			ruleRegPair(c)
 			rulePCReg(c)
